@@ -365,6 +365,25 @@ def spec_heap_resize():
     return Spec("HeapMem::resize", "src/mem/heap.rs", "resize", ["C18", "C10", "C12"], _heap_invariant, on_return, on_panic, "layouts presented to alloc/realloc/dealloc (one inductive step from any valid HeapMem)")
 
 
+def spec_heap_from_raw_parts():
+    def on_return(ex, p):
+        h = ex.as_bv(p.cells[("L:_1", ())])[1]
+        n = ex.as_bv(p.cells[("L:_3", ())])[1]
+        mem = ex.as_bv(ex.read_cell(p, "L:_0", (0,), "usize"))[1]
+        size = ex.as_bv(ex.read_cell(p, "L:_0", (1,), "usize"))[1]
+        al = ex.as_bv(ex.read_cell(p, "L:_0", (2, "align"), "usize"))[1]
+        al_in = ex.as_bv(ex.read_cell(p, "L:_2", ("align",), "usize"))[1]
+        es_in = ex.as_bv(ex.read_cell(p, "L:_2", ("size",), "usize"))[1]
+        es = ex.as_bv(ex.read_cell(p, "L:_0", (2, "size"), "usize"))[1]
+        return [("the rebuilt chunk records the capacity and element layout it was given", AND("(= %s %s)" % (size, n), "(= %s %s)" % (al, al_in), "(= %s %s)" % (es, es_in))),
+                ("the rebuilt chunk adopts the handle; only where nothing is allocated may it use another non-null pointer aligned for the element type",
+                 OR("(= %s %s)" % (mem, h), AND(OR("(= %s %s)" % (n, bvconst(0)), "(= %s %s)" % (es_in, bvconst(0))), "(not (= %s %s))" % (mem, bvconst(0)), "(= (bvand %s (bvsub %s %s)) %s)" % (mem, al_in, bvconst(1), bvconst(0)))))]
+
+    def on_panic(ex, p):
+        return [("never panics", "false")]
+    return Spec("HeapMem::from_raw_parts", "src/mem/heap.rs", "from_raw_parts", ["C17", "C12"], _elem_layout_invariant("O:arg2"), on_return, on_panic, "raw parts are adopted unchanged")
+
+
 def spec_heap_expand():
     def assume(ex, p):
         size, es, al = _heap_inputs(ex, p)
@@ -607,7 +626,7 @@ def all_specs():
     return [spec_into_range(), spec_reserve("reserve", "expand"), spec_reserve("reserve_exact", "expand_exact"), spec_shrink("shrink_to"), spec_shrink("shrink_to_fit"),
             spec_index_check(), spec_get("get"), spec_get("get_mut"), spec_drain_drop(),
             spec_handle_new("Pop"), spec_handle_new("Remove"), spec_handle_new("SwapRemove"), spec_handle_new("Drain"), spec_heap_resize(), spec_heap_expand(), spec_stack_build(), spec_stackn_build(), spec_iter_len("len"), spec_iter_len("size_hint"), spec_iter_step("next"), spec_iter_step("next_back"),
-            spec_bytes("as_bytes"), spec_bytes("as_bytes_mut"), spec_bytes("spare_bytes_mut")]
+            spec_bytes("as_bytes"), spec_bytes("as_bytes_mut"), spec_bytes("spare_bytes_mut"), spec_heap_from_raw_parts()]
 
 
 # ------------------------------------------------------------------ running
